@@ -2,8 +2,8 @@ SPECIFICATION Spec
 CONSTANTS
   GetTagSteps = 1
   CommitSnapshots = TRUE
-  CommitSerialized = TRUE
+  CommitSerialized = FALSE
   TwoPhaseCommit = TRUE
-  Prog <- ProgRB
+  Prog <- ProgCC
 INVARIANTS Emit
 CHECK_DEADLOCK FALSE
